@@ -19,7 +19,7 @@ import Driver.Common
                                   Table model of engine C02, Cello/Table.lean)   | R <n> (<key> <val>)*n  Tree (iteration order = descending key order)
          | G 3 i <start> i <stop> i <step>  Range (values from the Range model of engine C11, Cello/Iter.lean)
          | C <n> <arg>…  Slice over an Array   | X 1 <arg> | X 0  Box   | N 0  NULL   | O <name>  object of a type without Show
-         | Y <name>  Type object   | Z 0  the sink itself (op A only)
+         | Y <name>  Type object (as %s / %p argument, and shown by %$ at any position: Type_Show, fix 0046a69)   | Z 0  the sink itself (op A only)
    table entry: what libc prints for fragment <frag> with value <val> ::= i<int64> | d<bits> | s<bytes>   (the model's `prim`);
                 <out> = `!` when libc rejects the call (negative result)
 
